@@ -21,12 +21,14 @@ func c14(c *eng.Ctx, r *eng.Report) {
 		"R14.1 VerifySig returns true only as PairIsEuqal(Pair(sig, G2 generator), Pair(H(msg), pub)) of its own three arguments, after rejecting a nil or invalid signature and an invalid key; " +
 		"R14.2 the signature decoders consume both results of G1.Unmarshal and reject left-over bytes; " +
 		"R14.3 G1/G2.Unmarshal return a nil error only after the length test and, for a non-infinity point, IsOnCurve(), and assign the projective coordinates z and t on every accepted path (parsing overwrites the whole point, whatever the receiver held); " +
-		"R14.4 Sign/VerifySig consult no process-local mutable state (no cache, package-variable store, map range, clock or randomness in their cone), so the verdict is a function of (key, message, signature) only; " +
+		"R14.4 Sign/VerifySig and the key, signature and id parsers/serialisers consult no process-local mutable state (no cache, package-variable store, map range, clock or randomness in their cone), so the verdict is a function of (key, message, signature) only; " +
 		"R14.5 wherever the bytes of a big integer are placed into a fixed-width big-endian buffer they are right-aligned (`copy(buf[W-len(b):], b)`), so values with leading zero bytes encode faithfully. " +
 		"R14.6 keys, signatures and scalars are values — Sign, VerifySig, GeneratePubkey, AggregatePubkeys, hashToG1 and the Miller loop of the pairing (which normalises copies of its operands, never the operands: a key is paired against concurrently) perform in-place curve operations only on objects they allocate (never through an argument or a shallow copy of one: Signature/Pubkey wrap a pointer), and every modular reduction of a scalar in the package is modulo the group order, so the scalar Sign multiplies by is the one GeneratePubkey exponentiates. " +
 		"R14.7 VerifySig is the only function of the node that evaluates the signature pairing (no second, e.g. aggregated, definition of validity), and the scalar hex printer/parser are an inverse pair. " +
 		"R14.8 the pairing is 1 as soon as either operand is the identity: optimalAte tests IsInfinity() of both its operands and sets the result to one under either (e(P,O) = e(O,Q) = 1 is what bilinearity needs at k = 0 and k = order). " +
 		"R14.9 a groupsig function whose pointer result some caller dereferences without a nil test (`*groupsig.DeserializeSign(raw)`) has no nil return — a malformed signature from a peer verifies as false, it does not crash the verifier. " +
+		"R14.14 (= R13.12) the hex form of secret keys and ids round-trips: BnInt's writer (big.Int.Text(16), minimal digits) and reader (big.Int.SetString(_, 16)) agree; " +
+		"R14.13 the zero multiple of a point is the identity: in (*curvePoint).Mul and (*twistPoint).Mul the base point enters the running sum only under a set bit of the scalar (every Set/Add that reads the base operand is dominated by scalar.Bit(i) != 0) — an accumulator seeded with the base itself returns Q for the scalar 0, so secret key 0 (or r) shares key 1's public key and e(P, 0·Q) != e(P, Q)^0; " +
 		"R14.12 every addition formula has its doubling exit: a function of the bn256 package reachable from (*curvePoint).Add or (*twistPoint).Add that subtracts field elements (the chord formulas divide by the difference of the operands' coordinates) also calls Double of its point type — P + P is 2P, not the identity the chord formula yields for equal operands (e(P+P, Q) = e(P, Q)^2, and a scalar multiplication whose running sum meets its base keeps going); " +
 		"R14.11 the key and signature decoders hand the curve decoder the bytes they were given: the argument of G1/G2.Unmarshal in Pubkey.Deserialize, Signature.Deserialize and unmarshalExact is the function's own parameter, not a buffer substituted on some condition of its content (an encoding that merely starts with 0x00 is not the identity); " +
 		"R14.10 negation keeps a point well-formed: twistPoint.Neg and curvePoint.Neg carry the cached z² (field t) over from their argument — zeroing it leaves an affine point (z = 1) with t = 0, which MakeAffine does not repair, and the Miller loop then computes a different value for the same group element (finding F26, fixed). " +
@@ -53,6 +55,8 @@ func c14(c *eng.Ctx, r *eng.Report) {
 	c14NegKeepsT(c, r)
 	c14DecoderInputVerbatim(c, r)
 	c14AddHandlesDoubling(c, r)
+	c14MulStartsAtIdentity(c, r)
+	hexCodecAgreeAs(c, r, "R14.14")
 }
 
 func c14Verify(c *eng.Ctx, r *eng.Report) {
@@ -300,11 +304,17 @@ func c14Purity(c *eng.Ctx, r *eng.Report) {
 	const rule = "R14.4"
 	r.Min(rule, 1)
 	var entries []*ssa.Function
-	for _, n := range []string{"VerifySig", "Sign", "hashToG1"} {
+	for _, n := range []string{"VerifySig", "Sign", "hashToG1",
+		// the parsers and serialisers: a round trip is a function of the bytes alone
+		"ByteToPublicKey", "(*Pubkey).Deserialize", "Pubkey.Serialize", "(*Pubkey).SetHexString", "Pubkey.GetHexString",
+		"DeserializeSign", "(*Signature).Deserialize", "Signature.Serialize", "(*Signature).SetHexString", "Signature.GetHexString",
+		"(*Seckey).Deserialize", "Seckey.Serialize", "(*Seckey).SetHexString", "Seckey.GetHexString",
+		"DeserializeID", "(*ID).Deserialize", "ID.Serialize", "(*ID).SetHexString", "ID.GetHexString"} {
 		if f := c.Func(gsPkg, n); f != nil {
 			entries = append(entries, f)
 		}
 	}
+	r.Anchor(len(entries) >= 12, rule, "groupsig Sign/VerifySig and the key, signature and id codecs")
 	cone := c.ConeOf(entries, func(fn *ssa.Function) bool {
 		p := eng.FuncPkgPath(fn)
 		return strings.HasSuffix(p, "/"+gsPkg) || strings.HasSuffix(p, "/"+bnPkg)
@@ -321,7 +331,7 @@ func c14Purity(c *eng.Ctx, r *eng.Report) {
 				continue
 			}
 			hits++
-			r.Fail(rule, h.Kind+":"+eng.FuncName(fn), c.Pos(h.Pos), h.Detail+" in the cone of Sign/VerifySig ("+cone.PathTo(fn)+"): the verdict (or the signature) then depends on process history, not only on key, message and signature")
+			r.Fail(rule, h.Kind+":"+eng.FuncName(fn), c.Pos(h.Pos), h.Detail+" in the cone of Sign/VerifySig and the key/signature/id codecs ("+cone.PathTo(fn)+"): the verdict, the signature or the parsed value then depends on process history, not only on key, message and bytes — a decoded key handed out of a cache shares its curve point with every other holder, and an in-place re-parse of one rewrites the cache entry")
 		}
 	}
 	if hits == 0 {
@@ -662,5 +672,47 @@ func c14AddHandlesDoubling(c *eng.Ctx, r *eng.Report) {
 		if n == 0 {
 			r.Fail(rule, "doubling-exit:"+typ, c.Pos(add.Pos()), "no chord formula found under (*"+typ+").Add: the rule has lost its anchor")
 		}
+	}
+}
+
+// c14MulStartsAtIdentity: see R14.13.
+func c14MulStartsAtIdentity(c *eng.Ctx, r *eng.Report) {
+	const rule = "R14.13"
+	r.Min(rule, 2)
+	for _, typ := range []string{"curvePoint", "twistPoint"} {
+		fn := c.Func(bnPkg, "(*"+typ+").Mul")
+		if !r.Anchor(fn != nil && len(fn.Params) == 3, rule, "bn256.(*"+typ+").Mul") {
+			continue
+		}
+		base := fn.Params[1]
+		n, bad := 0, ""
+		for _, s := range eng.Sites(fn) {
+			uses := false
+			for i, a := range s.Common().Args {
+				if i > 0 && eng.ResolveLocal(a) == ssa.Value(base) {
+					uses = true
+				}
+			}
+			if !uses {
+				continue
+			}
+			n++
+			underBit := false
+			for _, cd := range eng.CondsAt(s.Instr) {
+				m, isM := cd.Cmp()
+				if !isM || m.Op != token.NEQ {
+					continue
+				}
+				if call, ok := m.X.(*ssa.Call); ok && eng.CallName(&call.Call) == "(*math/big.Int).Bit" {
+					if k, isK := eng.ConstInt(m.Y); isK && k == 0 {
+						underBit = true
+					}
+				}
+			}
+			if !underBit {
+				bad = s.Name() + " at " + c.Pos(s.Pos())
+			}
+		}
+		r.Check(bad == "" && n >= 1, rule, "mul-identity:(*"+typ+").Mul", c.Pos(fn.Pos()), fmt.Sprintf("%d use(s) of the base point, each under a set scalar bit", n), "(*"+typ+").Mul reads the base point outside a set-bit branch ("+bad+"): the running sum no longer starts at the identity, so Mul(Q, 0) returns Q — the secret key 0 (NewSeckeyFromBigInt(Order)) gets the public key of secret key 1, key 1's signature verifies under it, and the pairing is not bilinear at the zero multiple")
 	}
 }
